@@ -16,6 +16,9 @@ CLAIMED = {
  'C05': (TV, 'opti.f proven equal (z3 unsat of the negation, QF_UFNRA) to the reference sum of Mayer/sum/left-Riemann/scheme-quadrature terms',
          'For every enumerated objective composition/method/grid: opti.f == reference sum for all real values of the decision vector/parameters/T/t0 and all integrands of the shape; value(ocp.objective) == opti.f.',
          'As C01; quadrature by the scheme applied to the augmented system (shooting) / collocation weights B_j (exact rationals).', '3/C05'),
+ 'C14': (TV, 'scaled NLP rows/objective proven equal (z3, QF_UFNRA) to the unscaled reference in physical quantities: constraints exactly /scale, dynamics rows up to a constant factor',
+         'For every enumerated model with scale= on states, controls, algebraics, variables, derivatives, algebraic equations and constraints (distinct rational scales) and every method/grid: complete row bijection against the UNSCALED reference written in sampled physical quantities (user constraints and their bounds exactly divided by the declared scale; dynamics rows up to a nonzero constant, the factor is reported); objective equal; each sampled physical quantity / scale is a plain solver variable; starting point read back in physical units equals the guess (ground).',
+         'As C01. Scales are concrete rationals, not symbolic.', '3/C14'),
 }
 NA = {p: 'check not built yet in this round (see DESIGN.md section 3 for the plan)' for p in
       ['C02','C03','C04','C05','C06','C07','C08','C09','C10','C11','C12','C13','C14','C15','C16','C17','C18','C19']}
